@@ -16,258 +16,258 @@ open Glm.Hand.C06
 
 /-! ### lanes of memcpy/union layouts -/
 theorem asm2x16_lane0 (a b : UInt16) : lane2x16_0 (asm2x16 a b) = a := by
-  unfold lane2x16_0 asm2x16; bv_decide
+  unfold lane2x16_0 asm2x16; bv_decide (config := { timeout := 180 })
 theorem asm2x16_lane1 (a b : UInt16) : lane2x16_1 (asm2x16 a b) = b := by
-  unfold lane2x16_1 asm2x16; bv_decide
+  unfold lane2x16_1 asm2x16; bv_decide (config := { timeout := 180 })
 theorem asm2x16_lanes (p : UInt32) : asm2x16 (lane2x16_0 p) (lane2x16_1 p) = p := by
-  unfold lane2x16_0 lane2x16_1 asm2x16; bv_decide
+  unfold lane2x16_0 lane2x16_1 asm2x16; bv_decide (config := { timeout := 180 })
 /-- component 0 sits in the least-significant 16 bits -/
 theorem asm2x16_low (a b : UInt16) : asm2x16 a b &&& 0xffff = a.toUInt32 := by
-  unfold asm2x16; bv_decide
+  unfold asm2x16; bv_decide (config := { timeout := 180 })
 
 theorem asm4x8_lane0 (a b c d : UInt8) : lane4x8_0 (asm4x8 a b c d) = a := by
-  unfold lane4x8_0 asm4x8; bv_decide
+  unfold lane4x8_0 asm4x8; bv_decide (config := { timeout := 180 })
 theorem asm4x8_lane1 (a b c d : UInt8) : lane4x8_1 (asm4x8 a b c d) = b := by
-  unfold lane4x8_1 asm4x8; bv_decide
+  unfold lane4x8_1 asm4x8; bv_decide (config := { timeout := 180 })
 theorem asm4x8_lane2 (a b c d : UInt8) : lane4x8_2 (asm4x8 a b c d) = c := by
-  unfold lane4x8_2 asm4x8; bv_decide
+  unfold lane4x8_2 asm4x8; bv_decide (config := { timeout := 180 })
 theorem asm4x8_lane3 (a b c d : UInt8) : lane4x8_3 (asm4x8 a b c d) = d := by
-  unfold lane4x8_3 asm4x8; bv_decide
+  unfold lane4x8_3 asm4x8; bv_decide (config := { timeout := 180 })
 theorem asm4x8_lanes (p : UInt32) :
     asm4x8 (lane4x8_0 p) (lane4x8_1 p) (lane4x8_2 p) (lane4x8_3 p) = p := by
-  unfold lane4x8_0 lane4x8_1 lane4x8_2 lane4x8_3 asm4x8; bv_decide
+  unfold lane4x8_0 lane4x8_1 lane4x8_2 lane4x8_3 asm4x8; bv_decide (config := { timeout := 180 })
 theorem asm4x8_low (a b c d : UInt8) : asm4x8 a b c d &&& 0xff = a.toUInt32 := by
-  unfold asm4x8; bv_decide
+  unfold asm4x8; bv_decide (config := { timeout := 180 })
 
 theorem asm2x8_lane0 (a b : UInt8) : lane2x8_0 (asm2x8 a b) = a := by
-  unfold lane2x8_0 asm2x8; bv_decide
+  unfold lane2x8_0 asm2x8; bv_decide (config := { timeout := 180 })
 theorem asm2x8_lane1 (a b : UInt8) : lane2x8_1 (asm2x8 a b) = b := by
-  unfold lane2x8_1 asm2x8; bv_decide
+  unfold lane2x8_1 asm2x8; bv_decide (config := { timeout := 180 })
 theorem asm2x8_lanes (p : UInt16) : asm2x8 (lane2x8_0 p) (lane2x8_1 p) = p := by
-  unfold lane2x8_0 lane2x8_1 asm2x8; bv_decide
+  unfold lane2x8_0 lane2x8_1 asm2x8; bv_decide (config := { timeout := 180 })
 
 theorem asm4x16_lane0 (a b c d : UInt16) : lane4x16_0 (asm4x16 a b c d) = a := by
-  unfold lane4x16_0 asm4x16; bv_decide
+  unfold lane4x16_0 asm4x16; bv_decide (config := { timeout := 180 })
 theorem asm4x16_lane1 (a b c d : UInt16) : lane4x16_1 (asm4x16 a b c d) = b := by
-  unfold lane4x16_1 asm4x16; bv_decide
+  unfold lane4x16_1 asm4x16; bv_decide (config := { timeout := 180 })
 theorem asm4x16_lane2 (a b c d : UInt16) : lane4x16_2 (asm4x16 a b c d) = c := by
-  unfold lane4x16_2 asm4x16; bv_decide
+  unfold lane4x16_2 asm4x16; bv_decide (config := { timeout := 180 })
 theorem asm4x16_lane3 (a b c d : UInt16) : lane4x16_3 (asm4x16 a b c d) = d := by
-  unfold lane4x16_3 asm4x16; bv_decide
+  unfold lane4x16_3 asm4x16; bv_decide (config := { timeout := 180 })
 theorem asm4x16_lanes (p : UInt64) :
     asm4x16 (lane4x16_0 p) (lane4x16_1 p) (lane4x16_2 p) (lane4x16_3 p) = p := by
-  unfold lane4x16_0 lane4x16_1 lane4x16_2 lane4x16_3 asm4x16; bv_decide
+  unfold lane4x16_0 lane4x16_1 lane4x16_2 lane4x16_3 asm4x16; bv_decide (config := { timeout := 180 })
 
 theorem asm2x32_lane0 (a b : UInt32) : lane2x32_0 (asm2x32 a b) = a := by
-  unfold lane2x32_0 asm2x32; bv_decide
+  unfold lane2x32_0 asm2x32; bv_decide (config := { timeout := 180 })
 theorem asm2x32_lane1 (a b : UInt32) : lane2x32_1 (asm2x32 a b) = b := by
-  unfold lane2x32_1 asm2x32; bv_decide
+  unfold lane2x32_1 asm2x32; bv_decide (config := { timeout := 180 })
 theorem asm2x32_lanes (p : UInt64) : asm2x32 (lane2x32_0 p) (lane2x32_1 p) = p := by
-  unfold lane2x32_0 lane2x32_1 asm2x32; bv_decide
+  unfold lane2x32_0 lane2x32_1 asm2x32; bv_decide (config := { timeout := 180 })
 
 /-! ### bit-field unions: field k of the word = member k truncated to its width -/
 theorem u4u4_x (x y : UInt32) : fld_u4u4_x (asm_u4u4 x y) = x &&& 0xf := by
-  unfold fld_u4u4_x asm_u4u4; bv_decide
+  unfold fld_u4u4_x asm_u4u4; bv_decide (config := { timeout := 180 })
 theorem u4u4_y (x y : UInt32) : fld_u4u4_y (asm_u4u4 x y) = y &&& 0xf := by
-  unfold fld_u4u4_y asm_u4u4; bv_decide
+  unfold fld_u4u4_y asm_u4u4; bv_decide (config := { timeout := 180 })
 theorem u4u4_word (p : UInt8) : asm_u4u4 (fld_u4u4_x p) (fld_u4u4_y p) = p := by
-  unfold fld_u4u4_x fld_u4u4_y asm_u4u4; bv_decide
+  unfold fld_u4u4_x fld_u4u4_y asm_u4u4; bv_decide (config := { timeout := 180 })
 theorem u4u4_bounds (p : UInt8) : fld_u4u4_x p < 16 ∧ fld_u4u4_y p < 16 := by
-  unfold fld_u4u4_x fld_u4u4_y; bv_decide
+  unfold fld_u4u4_x fld_u4u4_y; bv_decide (config := { timeout := 180 })
 
 theorem u4x4_x (x y z w : UInt32) : fld_u4x4_x (asm_u4u4u4u4 x y z w) = x &&& 0xf := by
-  unfold fld_u4x4_x asm_u4u4u4u4; bv_decide
+  unfold fld_u4x4_x asm_u4u4u4u4; bv_decide (config := { timeout := 180 })
 theorem u4x4_y (x y z w : UInt32) : fld_u4x4_y (asm_u4u4u4u4 x y z w) = y &&& 0xf := by
-  unfold fld_u4x4_y asm_u4u4u4u4; bv_decide
+  unfold fld_u4x4_y asm_u4u4u4u4; bv_decide (config := { timeout := 180 })
 theorem u4x4_z (x y z w : UInt32) : fld_u4x4_z (asm_u4u4u4u4 x y z w) = z &&& 0xf := by
-  unfold fld_u4x4_z asm_u4u4u4u4; bv_decide
+  unfold fld_u4x4_z asm_u4u4u4u4; bv_decide (config := { timeout := 180 })
 theorem u4x4_w (x y z w : UInt32) : fld_u4x4_w (asm_u4u4u4u4 x y z w) = w &&& 0xf := by
-  unfold fld_u4x4_w asm_u4u4u4u4; bv_decide
+  unfold fld_u4x4_w asm_u4u4u4u4; bv_decide (config := { timeout := 180 })
 theorem u4x4_word (p : UInt16) :
     asm_u4u4u4u4 (fld_u4x4_x p) (fld_u4x4_y p) (fld_u4x4_z p) (fld_u4x4_w p) = p := by
-  unfold fld_u4x4_x fld_u4x4_y fld_u4x4_z fld_u4x4_w asm_u4u4u4u4; bv_decide
+  unfold fld_u4x4_x fld_u4x4_y fld_u4x4_z fld_u4x4_w asm_u4u4u4u4; bv_decide (config := { timeout := 180 })
 theorem u4x4_bounds (p : UInt16) :
     fld_u4x4_x p < 16 ∧ fld_u4x4_y p < 16 ∧ fld_u4x4_z p < 16 ∧ fld_u4x4_w p < 16 := by
-  unfold fld_u4x4_x fld_u4x4_y fld_u4x4_z fld_u4x4_w; bv_decide
+  unfold fld_u4x4_x fld_u4x4_y fld_u4x4_z fld_u4x4_w; bv_decide (config := { timeout := 180 })
 
 theorem u565_x (x y z : UInt32) : fld_u565_x (asm_u5u6u5 x y z) = x &&& 0x1f := by
-  unfold fld_u565_x asm_u5u6u5; bv_decide
+  unfold fld_u565_x asm_u5u6u5; bv_decide (config := { timeout := 180 })
 theorem u565_y (x y z : UInt32) : fld_u565_y (asm_u5u6u5 x y z) = y &&& 0x3f := by
-  unfold fld_u565_y asm_u5u6u5; bv_decide
+  unfold fld_u565_y asm_u5u6u5; bv_decide (config := { timeout := 180 })
 theorem u565_z (x y z : UInt32) : fld_u565_z (asm_u5u6u5 x y z) = z &&& 0x1f := by
-  unfold fld_u565_z asm_u5u6u5; bv_decide
+  unfold fld_u565_z asm_u5u6u5; bv_decide (config := { timeout := 180 })
 theorem u565_word (p : UInt16) : asm_u5u6u5 (fld_u565_x p) (fld_u565_y p) (fld_u565_z p) = p := by
-  unfold fld_u565_x fld_u565_y fld_u565_z asm_u5u6u5; bv_decide
+  unfold fld_u565_x fld_u565_y fld_u565_z asm_u5u6u5; bv_decide (config := { timeout := 180 })
 theorem u565_bounds (p : UInt16) : fld_u565_x p < 32 ∧ fld_u565_y p < 64 ∧ fld_u565_z p < 32 := by
-  unfold fld_u565_x fld_u565_y fld_u565_z; bv_decide
+  unfold fld_u565_x fld_u565_y fld_u565_z; bv_decide (config := { timeout := 180 })
 
 theorem u5551_x (x y z w : UInt32) : fld_u5551_x (asm_u5u5u5u1 x y z w) = x &&& 0x1f := by
-  unfold fld_u5551_x asm_u5u5u5u1; bv_decide
+  unfold fld_u5551_x asm_u5u5u5u1; bv_decide (config := { timeout := 180 })
 theorem u5551_y (x y z w : UInt32) : fld_u5551_y (asm_u5u5u5u1 x y z w) = y &&& 0x1f := by
-  unfold fld_u5551_y asm_u5u5u5u1; bv_decide
+  unfold fld_u5551_y asm_u5u5u5u1; bv_decide (config := { timeout := 180 })
 theorem u5551_z (x y z w : UInt32) : fld_u5551_z (asm_u5u5u5u1 x y z w) = z &&& 0x1f := by
-  unfold fld_u5551_z asm_u5u5u5u1; bv_decide
+  unfold fld_u5551_z asm_u5u5u5u1; bv_decide (config := { timeout := 180 })
 theorem u5551_w (x y z w : UInt32) : fld_u5551_w (asm_u5u5u5u1 x y z w) = w &&& 0x1 := by
-  unfold fld_u5551_w asm_u5u5u5u1; bv_decide
+  unfold fld_u5551_w asm_u5u5u5u1; bv_decide (config := { timeout := 180 })
 theorem u5551_word (p : UInt16) :
     asm_u5u5u5u1 (fld_u5551_x p) (fld_u5551_y p) (fld_u5551_z p) (fld_u5551_w p) = p := by
-  unfold fld_u5551_x fld_u5551_y fld_u5551_z fld_u5551_w asm_u5u5u5u1; bv_decide
+  unfold fld_u5551_x fld_u5551_y fld_u5551_z fld_u5551_w asm_u5u5u5u1; bv_decide (config := { timeout := 180 })
 theorem u5551_bounds (p : UInt16) :
     fld_u5551_x p < 32 ∧ fld_u5551_y p < 32 ∧ fld_u5551_z p < 32 ∧ fld_u5551_w p < 2 := by
-  unfold fld_u5551_x fld_u5551_y fld_u5551_z fld_u5551_w; bv_decide
+  unfold fld_u5551_x fld_u5551_y fld_u5551_z fld_u5551_w; bv_decide (config := { timeout := 180 })
 
 theorem u332_x (x y z : UInt32) : fld_u332_x (asm_u3u3u2 x y z) = x &&& 0x7 := by
-  unfold fld_u332_x asm_u3u3u2; bv_decide
+  unfold fld_u332_x asm_u3u3u2; bv_decide (config := { timeout := 180 })
 theorem u332_y (x y z : UInt32) : fld_u332_y (asm_u3u3u2 x y z) = y &&& 0x7 := by
-  unfold fld_u332_y asm_u3u3u2; bv_decide
+  unfold fld_u332_y asm_u3u3u2; bv_decide (config := { timeout := 180 })
 theorem u332_z (x y z : UInt32) : fld_u332_z (asm_u3u3u2 x y z) = z &&& 0x3 := by
-  unfold fld_u332_z asm_u3u3u2; bv_decide
+  unfold fld_u332_z asm_u3u3u2; bv_decide (config := { timeout := 180 })
 theorem u332_word (p : UInt8) : asm_u3u3u2 (fld_u332_x p) (fld_u332_y p) (fld_u332_z p) = p := by
-  unfold fld_u332_x fld_u332_y fld_u332_z asm_u3u3u2; bv_decide
+  unfold fld_u332_x fld_u332_y fld_u332_z asm_u3u3u2; bv_decide (config := { timeout := 180 })
 theorem u332_bounds (p : UInt8) : fld_u332_x p < 8 ∧ fld_u332_y p < 8 ∧ fld_u332_z p < 4 := by
-  unfold fld_u332_x fld_u332_y fld_u332_z; bv_decide
+  unfold fld_u332_x fld_u332_y fld_u332_z; bv_decide (config := { timeout := 180 })
 
 theorem u1010102_x (x y z w : UInt32) : fld_u1010102_x (asm_u10u10u10u2 x y z w) = x &&& 0x3ff := by
-  unfold fld_u1010102_x asm_u10u10u10u2; bv_decide
+  unfold fld_u1010102_x asm_u10u10u10u2; bv_decide (config := { timeout := 180 })
 theorem u1010102_y (x y z w : UInt32) : fld_u1010102_y (asm_u10u10u10u2 x y z w) = y &&& 0x3ff := by
-  unfold fld_u1010102_y asm_u10u10u10u2; bv_decide
+  unfold fld_u1010102_y asm_u10u10u10u2; bv_decide (config := { timeout := 180 })
 theorem u1010102_z (x y z w : UInt32) : fld_u1010102_z (asm_u10u10u10u2 x y z w) = z &&& 0x3ff := by
-  unfold fld_u1010102_z asm_u10u10u10u2; bv_decide
+  unfold fld_u1010102_z asm_u10u10u10u2; bv_decide (config := { timeout := 180 })
 theorem u1010102_w (x y z w : UInt32) : fld_u1010102_w (asm_u10u10u10u2 x y z w) = w &&& 0x3 := by
-  unfold fld_u1010102_w asm_u10u10u10u2; bv_decide
+  unfold fld_u1010102_w asm_u10u10u10u2; bv_decide (config := { timeout := 180 })
 theorem u1010102_word (p : UInt32) :
     asm_u10u10u10u2 (fld_u1010102_x p) (fld_u1010102_y p) (fld_u1010102_z p) (fld_u1010102_w p) = p := by
-  unfold fld_u1010102_x fld_u1010102_y fld_u1010102_z fld_u1010102_w asm_u10u10u10u2; bv_decide
+  unfold fld_u1010102_x fld_u1010102_y fld_u1010102_z fld_u1010102_w asm_u10u10u10u2; bv_decide (config := { timeout := 180 })
 theorem u1010102_bounds (p : UInt32) : fld_u1010102_x p < 1024 ∧ fld_u1010102_y p < 1024 ∧
     fld_u1010102_z p < 1024 ∧ fld_u1010102_w p < 4 := by
-  unfold fld_u1010102_x fld_u1010102_y fld_u1010102_z fld_u1010102_w; bv_decide
+  unfold fld_u1010102_x fld_u1010102_y fld_u1010102_z fld_u1010102_w; bv_decide (config := { timeout := 180 })
 
 /-- signed bit-fields: reading field k gives member k's low 10 (2) bits sign-extended -/
 theorem i1010102_x (x y z w : Int32) :
     fld_i1010102_x (asm_i10i10i10i2 x y z w) = (x <<< 22) >>> 22 := by
-  unfold fld_i1010102_x asm_i10i10i10i2 asm_u10u10u10u2; bv_decide
+  unfold fld_i1010102_x asm_i10i10i10i2 asm_u10u10u10u2; bv_decide (config := { timeout := 180 })
 theorem i1010102_y (x y z w : Int32) :
     fld_i1010102_y (asm_i10i10i10i2 x y z w) = (y <<< 22) >>> 22 := by
-  unfold fld_i1010102_y asm_i10i10i10i2 asm_u10u10u10u2; bv_decide
+  unfold fld_i1010102_y asm_i10i10i10i2 asm_u10u10u10u2; bv_decide (config := { timeout := 180 })
 theorem i1010102_z (x y z w : Int32) :
     fld_i1010102_z (asm_i10i10i10i2 x y z w) = (z <<< 22) >>> 22 := by
-  unfold fld_i1010102_z asm_i10i10i10i2 asm_u10u10u10u2; bv_decide
+  unfold fld_i1010102_z asm_i10i10i10i2 asm_u10u10u10u2; bv_decide (config := { timeout := 180 })
 theorem i1010102_w (x y z w : Int32) :
     fld_i1010102_w (asm_i10i10i10i2 x y z w) = (w <<< 30) >>> 30 := by
-  unfold fld_i1010102_w asm_i10i10i10i2 asm_u10u10u10u2; bv_decide
+  unfold fld_i1010102_w asm_i10i10i10i2 asm_u10u10u10u2; bv_decide (config := { timeout := 180 })
 /-- a member inside the field's range is read back unchanged -/
 theorem i10_inrange (x : Int32) (h : -512 ≤ x ∧ x ≤ 511) : (x <<< 22) >>> 22 = x := by
-  bv_decide
+  bv_decide (config := { timeout := 180 })
 theorem i2_inrange (x : Int32) (h : -2 ≤ x ∧ x ≤ 1) : (x <<< 30) >>> 30 = x := by
-  bv_decide
+  bv_decide (config := { timeout := 180 })
 theorem i1010102_word (p : UInt32) :
     asm_i10i10i10i2 (fld_i1010102_x p) (fld_i1010102_y p) (fld_i1010102_z p) (fld_i1010102_w p) = p := by
   unfold fld_i1010102_x fld_i1010102_y fld_i1010102_z fld_i1010102_w asm_i10i10i10i2 asm_u10u10u10u2
-  bv_decide
+  bv_decide (config := { timeout := 180 })
 theorem i1010102_bounds (p : UInt32) :
     (-512 ≤ fld_i1010102_x p ∧ fld_i1010102_x p ≤ 511) ∧ (-512 ≤ fld_i1010102_y p ∧ fld_i1010102_y p ≤ 511) ∧
     (-512 ≤ fld_i1010102_z p ∧ fld_i1010102_z p ≤ 511) ∧ (-2 ≤ fld_i1010102_w p ∧ fld_i1010102_w p ≤ 1) := by
-  unfold fld_i1010102_x fld_i1010102_y fld_i1010102_z fld_i1010102_w; bv_decide
+  unfold fld_i1010102_x fld_i1010102_y fld_i1010102_z fld_i1010102_w; bv_decide (config := { timeout := 180 })
 
 theorem u9995_x (x y z w : UInt32) : fld_u9995_x (asm_u9u9u9e5 x y z w) = x &&& 0x1ff := by
-  unfold fld_u9995_x asm_u9u9u9e5; bv_decide
+  unfold fld_u9995_x asm_u9u9u9e5; bv_decide (config := { timeout := 180 })
 theorem u9995_y (x y z w : UInt32) : fld_u9995_y (asm_u9u9u9e5 x y z w) = y &&& 0x1ff := by
-  unfold fld_u9995_y asm_u9u9u9e5; bv_decide
+  unfold fld_u9995_y asm_u9u9u9e5; bv_decide (config := { timeout := 180 })
 theorem u9995_z (x y z w : UInt32) : fld_u9995_z (asm_u9u9u9e5 x y z w) = z &&& 0x1ff := by
-  unfold fld_u9995_z asm_u9u9u9e5; bv_decide
+  unfold fld_u9995_z asm_u9u9u9e5; bv_decide (config := { timeout := 180 })
 theorem u9995_w (x y z w : UInt32) : fld_u9995_w (asm_u9u9u9e5 x y z w) = w &&& 0x1f := by
-  unfold fld_u9995_w asm_u9u9u9e5; bv_decide
+  unfold fld_u9995_w asm_u9u9u9e5; bv_decide (config := { timeout := 180 })
 theorem u9995_word (p : UInt32) :
     asm_u9u9u9e5 (fld_u9995_x p) (fld_u9995_y p) (fld_u9995_z p) (fld_u9995_w p) = p := by
-  unfold fld_u9995_x fld_u9995_y fld_u9995_z fld_u9995_w asm_u9u9u9e5; bv_decide
+  unfold fld_u9995_x fld_u9995_y fld_u9995_z fld_u9995_w asm_u9u9u9e5; bv_decide (config := { timeout := 180 })
 
 /-- the three small-float fields of `packF2x11_1x10` -/
 theorem f11f11f10_x (a b c : UInt32) : (asmF11F11F10 a b c >>> 0) &&& 0x7ff = a &&& 0x7ff := by
-  unfold asmF11F11F10; bv_decide
+  unfold asmF11F11F10; bv_decide (config := { timeout := 180 })
 theorem f11f11f10_y (a b c : UInt32) : (asmF11F11F10 a b c >>> 11) &&& 0x7ff = b &&& 0x7ff := by
-  unfold asmF11F11F10; bv_decide
+  unfold asmF11F11F10; bv_decide (config := { timeout := 180 })
 theorem f11f11f10_z (a b c : UInt32) : (asmF11F11F10 a b c >>> 22) &&& 0x3ff = c &&& 0x3ff := by
-  unfold asmF11F11F10; bv_decide
+  unfold asmF11F11F10; bv_decide (config := { timeout := 180 })
 theorem f11f11f10_word (p : UInt32) :
     asmF11F11F10 ((p >>> 0) &&& 0x7ff) ((p >>> 11) &&& 0x7ff) ((p >>> 22) &&& 0x3ff) = p := by
-  unfold asmF11F11F10; bv_decide
+  unfold asmF11F11F10; bv_decide (config := { timeout := 180 })
 
 /-! ### (e) integer packs: bijections with lane 0 in the least-significant bits -/
 theorem packInt2x8_unpack (p : Int16) : packInt2x8 (unpackInt2x8_x p) (unpackInt2x8_y p) = p := by
-  unfold packInt2x8 unpackInt2x8_x unpackInt2x8_y asm2x8 lane2x8_0 lane2x8_1; bv_decide
+  unfold packInt2x8 unpackInt2x8_x unpackInt2x8_y asm2x8 lane2x8_0 lane2x8_1; bv_decide (config := { timeout := 180 })
 theorem unpackInt2x8_pack (x y : Int8) :
     unpackInt2x8_x (packInt2x8 x y) = x ∧ unpackInt2x8_y (packInt2x8 x y) = y := by
-  unfold packInt2x8 unpackInt2x8_x unpackInt2x8_y asm2x8 lane2x8_0 lane2x8_1; bv_decide
+  unfold packInt2x8 unpackInt2x8_x unpackInt2x8_y asm2x8 lane2x8_0 lane2x8_1; bv_decide (config := { timeout := 180 })
 theorem packUint2x8_unpack (p : UInt16) : packUint2x8 (unpackUint2x8_x p) (unpackUint2x8_y p) = p := by
-  unfold packUint2x8 unpackUint2x8_x unpackUint2x8_y asm2x8 lane2x8_0 lane2x8_1; bv_decide
+  unfold packUint2x8 unpackUint2x8_x unpackUint2x8_y asm2x8 lane2x8_0 lane2x8_1; bv_decide (config := { timeout := 180 })
 theorem unpackUint2x8_pack (x y : UInt8) :
     unpackUint2x8_x (packUint2x8 x y) = x ∧ unpackUint2x8_y (packUint2x8 x y) = y := by
-  unfold packUint2x8 unpackUint2x8_x unpackUint2x8_y asm2x8 lane2x8_0 lane2x8_1; bv_decide
+  unfold packUint2x8 unpackUint2x8_x unpackUint2x8_y asm2x8 lane2x8_0 lane2x8_1; bv_decide (config := { timeout := 180 })
 theorem packInt4x8_unpack (p : Int32) :
     packInt4x8 (unpackInt4x8_x p) (unpackInt4x8_y p) (unpackInt4x8_z p) (unpackInt4x8_w p) = p := by
   unfold packInt4x8 unpackInt4x8_x unpackInt4x8_y unpackInt4x8_z unpackInt4x8_w asm4x8
-    lane4x8_0 lane4x8_1 lane4x8_2 lane4x8_3; bv_decide
+    lane4x8_0 lane4x8_1 lane4x8_2 lane4x8_3; bv_decide (config := { timeout := 180 })
 theorem unpackInt4x8_pack (x y z w : Int8) :
     unpackInt4x8_x (packInt4x8 x y z w) = x ∧ unpackInt4x8_y (packInt4x8 x y z w) = y ∧
     unpackInt4x8_z (packInt4x8 x y z w) = z ∧ unpackInt4x8_w (packInt4x8 x y z w) = w := by
   unfold packInt4x8 unpackInt4x8_x unpackInt4x8_y unpackInt4x8_z unpackInt4x8_w asm4x8
-    lane4x8_0 lane4x8_1 lane4x8_2 lane4x8_3; bv_decide
+    lane4x8_0 lane4x8_1 lane4x8_2 lane4x8_3; bv_decide (config := { timeout := 180 })
 theorem packUint4x8_unpack (p : UInt32) :
     packUint4x8 (unpackUint4x8_x p) (unpackUint4x8_y p) (unpackUint4x8_z p) (unpackUint4x8_w p) = p := by
   unfold packUint4x8 unpackUint4x8_x unpackUint4x8_y unpackUint4x8_z unpackUint4x8_w asm4x8
-    lane4x8_0 lane4x8_1 lane4x8_2 lane4x8_3; bv_decide
+    lane4x8_0 lane4x8_1 lane4x8_2 lane4x8_3; bv_decide (config := { timeout := 180 })
 theorem unpackUint4x8_pack (x y z w : UInt8) :
     unpackUint4x8_x (packUint4x8 x y z w) = x ∧ unpackUint4x8_y (packUint4x8 x y z w) = y ∧
     unpackUint4x8_z (packUint4x8 x y z w) = z ∧ unpackUint4x8_w (packUint4x8 x y z w) = w := by
   unfold packUint4x8 unpackUint4x8_x unpackUint4x8_y unpackUint4x8_z unpackUint4x8_w asm4x8
-    lane4x8_0 lane4x8_1 lane4x8_2 lane4x8_3; bv_decide
+    lane4x8_0 lane4x8_1 lane4x8_2 lane4x8_3; bv_decide (config := { timeout := 180 })
 theorem packInt2x16_unpack (p : Int32) : packInt2x16 (unpackInt2x16_x p) (unpackInt2x16_y p) = p := by
-  unfold packInt2x16 unpackInt2x16_x unpackInt2x16_y asm2x16 lane2x16_0 lane2x16_1; bv_decide
+  unfold packInt2x16 unpackInt2x16_x unpackInt2x16_y asm2x16 lane2x16_0 lane2x16_1; bv_decide (config := { timeout := 180 })
 theorem unpackInt2x16_pack (x y : Int16) :
     unpackInt2x16_x (packInt2x16 x y) = x ∧ unpackInt2x16_y (packInt2x16 x y) = y := by
-  unfold packInt2x16 unpackInt2x16_x unpackInt2x16_y asm2x16 lane2x16_0 lane2x16_1; bv_decide
+  unfold packInt2x16 unpackInt2x16_x unpackInt2x16_y asm2x16 lane2x16_0 lane2x16_1; bv_decide (config := { timeout := 180 })
 theorem packUint2x16_unpack (p : UInt32) : packUint2x16 (unpackUint2x16_x p) (unpackUint2x16_y p) = p := by
-  unfold packUint2x16 unpackUint2x16_x unpackUint2x16_y asm2x16 lane2x16_0 lane2x16_1; bv_decide
+  unfold packUint2x16 unpackUint2x16_x unpackUint2x16_y asm2x16 lane2x16_0 lane2x16_1; bv_decide (config := { timeout := 180 })
 theorem unpackUint2x16_pack (x y : UInt16) :
     unpackUint2x16_x (packUint2x16 x y) = x ∧ unpackUint2x16_y (packUint2x16 x y) = y := by
-  unfold packUint2x16 unpackUint2x16_x unpackUint2x16_y asm2x16 lane2x16_0 lane2x16_1; bv_decide
+  unfold packUint2x16 unpackUint2x16_x unpackUint2x16_y asm2x16 lane2x16_0 lane2x16_1; bv_decide (config := { timeout := 180 })
 theorem packInt4x16_unpack (p : Int64) :
     packInt4x16 (unpackInt4x16_x p) (unpackInt4x16_y p) (unpackInt4x16_z p) (unpackInt4x16_w p) = p := by
   unfold packInt4x16 unpackInt4x16_x unpackInt4x16_y unpackInt4x16_z unpackInt4x16_w asm4x16
-    lane4x16_0 lane4x16_1 lane4x16_2 lane4x16_3; bv_decide
+    lane4x16_0 lane4x16_1 lane4x16_2 lane4x16_3; bv_decide (config := { timeout := 180 })
 theorem unpackInt4x16_pack (x y z w : Int16) :
     unpackInt4x16_x (packInt4x16 x y z w) = x ∧ unpackInt4x16_y (packInt4x16 x y z w) = y ∧
     unpackInt4x16_z (packInt4x16 x y z w) = z ∧ unpackInt4x16_w (packInt4x16 x y z w) = w := by
   unfold packInt4x16 unpackInt4x16_x unpackInt4x16_y unpackInt4x16_z unpackInt4x16_w asm4x16
-    lane4x16_0 lane4x16_1 lane4x16_2 lane4x16_3; bv_decide
+    lane4x16_0 lane4x16_1 lane4x16_2 lane4x16_3; bv_decide (config := { timeout := 180 })
 theorem packUint4x16_unpack (p : UInt64) :
     packUint4x16 (unpackUint4x16_x p) (unpackUint4x16_y p) (unpackUint4x16_z p) (unpackUint4x16_w p) = p := by
   unfold packUint4x16 unpackUint4x16_x unpackUint4x16_y unpackUint4x16_z unpackUint4x16_w asm4x16
-    lane4x16_0 lane4x16_1 lane4x16_2 lane4x16_3; bv_decide
+    lane4x16_0 lane4x16_1 lane4x16_2 lane4x16_3; bv_decide (config := { timeout := 180 })
 theorem unpackUint4x16_pack (x y z w : UInt16) :
     unpackUint4x16_x (packUint4x16 x y z w) = x ∧ unpackUint4x16_y (packUint4x16 x y z w) = y ∧
     unpackUint4x16_z (packUint4x16 x y z w) = z ∧ unpackUint4x16_w (packUint4x16 x y z w) = w := by
   unfold packUint4x16 unpackUint4x16_x unpackUint4x16_y unpackUint4x16_z unpackUint4x16_w asm4x16
-    lane4x16_0 lane4x16_1 lane4x16_2 lane4x16_3; bv_decide
+    lane4x16_0 lane4x16_1 lane4x16_2 lane4x16_3; bv_decide (config := { timeout := 180 })
 theorem packInt2x32_unpack (p : Int64) : packInt2x32 (unpackInt2x32_x p) (unpackInt2x32_y p) = p := by
-  unfold packInt2x32 unpackInt2x32_x unpackInt2x32_y asm2x32 lane2x32_0 lane2x32_1; bv_decide
+  unfold packInt2x32 unpackInt2x32_x unpackInt2x32_y asm2x32 lane2x32_0 lane2x32_1; bv_decide (config := { timeout := 180 })
 theorem unpackInt2x32_pack (x y : Int32) :
     unpackInt2x32_x (packInt2x32 x y) = x ∧ unpackInt2x32_y (packInt2x32 x y) = y := by
-  unfold packInt2x32 unpackInt2x32_x unpackInt2x32_y asm2x32 lane2x32_0 lane2x32_1; bv_decide
+  unfold packInt2x32 unpackInt2x32_x unpackInt2x32_y asm2x32 lane2x32_0 lane2x32_1; bv_decide (config := { timeout := 180 })
 theorem packUint2x32_unpack (p : UInt64) : packUint2x32 (unpackUint2x32_x p) (unpackUint2x32_y p) = p := by
-  unfold packUint2x32 unpackUint2x32_x unpackUint2x32_y asm2x32 lane2x32_0 lane2x32_1; bv_decide
+  unfold packUint2x32 unpackUint2x32_x unpackUint2x32_y asm2x32 lane2x32_0 lane2x32_1; bv_decide (config := { timeout := 180 })
 theorem unpackUint2x32_pack (x y : UInt32) :
     unpackUint2x32_x (packUint2x32 x y) = x ∧ unpackUint2x32_y (packUint2x32 x y) = y := by
-  unfold packUint2x32 unpackUint2x32_x unpackUint2x32_y asm2x32 lane2x32_0 lane2x32_1; bv_decide
+  unfold packUint2x32 unpackUint2x32_x unpackUint2x32_y asm2x32 lane2x32_0 lane2x32_1; bv_decide (config := { timeout := 180 })
 theorem packDouble2x32_unpack (v : UInt64) :
     packDouble2x32 (unpackDouble2x32_x v) (unpackDouble2x32_y v) = v := by
-  unfold packDouble2x32 unpackDouble2x32_x unpackDouble2x32_y asm2x32 lane2x32_0 lane2x32_1; bv_decide
+  unfold packDouble2x32 unpackDouble2x32_x unpackDouble2x32_y asm2x32 lane2x32_0 lane2x32_1; bv_decide (config := { timeout := 180 })
 theorem unpackDouble2x32_pack (x y : UInt32) :
     unpackDouble2x32_x (packDouble2x32 x y) = x ∧ unpackDouble2x32_y (packDouble2x32 x y) = y := by
-  unfold packDouble2x32 unpackDouble2x32_x unpackDouble2x32_y asm2x32 lane2x32_0 lane2x32_1; bv_decide
+  unfold packDouble2x32 unpackDouble2x32_x unpackDouble2x32_y asm2x32 lane2x32_0 lane2x32_1; bv_decide (config := { timeout := 180 })
 /-- the first component is the least-significant half of the double's bit pattern -/
 theorem packDouble2x32_low (x y : UInt32) : (packDouble2x32 x y).toUInt32 = x := by
-  unfold packDouble2x32 asm2x32; bv_decide
+  unfold packDouble2x32 asm2x32; bv_decide (config := { timeout := 180 })
 
 theorem packU3x10_1x2_unpack (v : UInt32) :
     packU3x10_1x2 (unpackU3x10_1x2_x v) (unpackU3x10_1x2_y v) (unpackU3x10_1x2_z v) (unpackU3x10_1x2_w v) = v :=
@@ -277,7 +277,7 @@ theorem unpackU3x10_1x2_pack (x y z w : UInt32) (h : x < 1024 ∧ y < 1024 ∧ z
     unpackU3x10_1x2_z (packU3x10_1x2 x y z w) = z ∧ unpackU3x10_1x2_w (packU3x10_1x2 x y z w) = w := by
   unfold unpackU3x10_1x2_x unpackU3x10_1x2_y unpackU3x10_1x2_z unpackU3x10_1x2_w packU3x10_1x2
     fld_u1010102_x fld_u1010102_y fld_u1010102_z fld_u1010102_w asm_u10u10u10u2
-  bv_decide
+  bv_decide (config := { timeout := 180 })
 theorem packI3x10_1x2_unpack (v : UInt32) :
     packI3x10_1x2 (unpackI3x10_1x2_x v) (unpackI3x10_1x2_y v) (unpackI3x10_1x2_z v) (unpackI3x10_1x2_w v) = v :=
   i1010102_word v
@@ -287,7 +287,7 @@ theorem unpackI3x10_1x2_pack (x y z w : Int32)
     unpackI3x10_1x2_z (packI3x10_1x2 x y z w) = z ∧ unpackI3x10_1x2_w (packI3x10_1x2 x y z w) = w := by
   unfold unpackI3x10_1x2_x unpackI3x10_1x2_y unpackI3x10_1x2_z unpackI3x10_1x2_w packI3x10_1x2
     fld_i1010102_x fld_i1010102_y fld_i1010102_z fld_i1010102_w asm_i10i10i10i2 asm_u10u10u10u2
-  bv_decide
+  bv_decide (config := { timeout := 180 })
 
 /-! ### half packs: component k at bits 16k..16k+15, for any per-component conversion -/
 theorem packHalf2x16_layout (cvt : UInt32 → UInt16) (x y : UInt32) :
